@@ -44,6 +44,7 @@ type Case struct {
 	Commit     uint32   `json:"commit"`
 	Map        []uint32 `json:"map"`   // page numbers that have a WAL frame
 	Marks      []uint32 `json:"marks"` // page numbers given non-zero content in the database file
+	FilePages  uint32   `json:"file_pages,omitempty"` // snapshot: pages in the database FILE (0 = commit); pages beyond it exist only in the WAL
 	Then       *Case    `json:"then,omitempty"` // snapshot: an incremental file applied on top before restoring
 }
 
@@ -278,10 +279,16 @@ func run(c Case, drv *hx.Driver, root string) (v verdict) {
 	}
 	defer w.close()
 	marks := map[uint32]bool{}
-	for _, p := range c.Marks {
-		marks[p] = true
+	filePages := c.Commit
+	if c.FilePages != 0 && c.Kind == "snapshot" {
+		filePages = c.FilePages // growth beyond the file is still only in the WAL
 	}
-	if err := w.setDB(c.Commit, c.Marks); err != nil {
+	for _, p := range c.Marks {
+		if p <= filePages {
+			marks[p] = true
+		}
+	}
+	if err := w.setDB(filePages, c.Marks); err != nil {
 		hx.Fatal(err)
 	}
 	if err := w.setWAL(c.Map); err != nil {
@@ -646,6 +653,41 @@ func genSnap(r *hx.Rand, ps uint32, place int, then bool) Case {
 	return c
 }
 
+// genSnapFile: the database FILE is shorter than (0) / exactly at (1) / just past (2) the lock page
+// while the committed size (from the WAL) is beyond it: every page past the file is in the WAL map.
+func genSnapFile(r *hx.Rand, ps uint32, place int) Case {
+	lock := ltx.LockPgno(ps)
+	c := Case{Kind: "snapshot", PageSize: ps, Commit: lock + 1 + uint32(r.Intn(4))}
+	switch place {
+	case 0:
+		c.FilePages = lock - 2 - uint32(r.Intn(4))
+	case 1:
+		c.FilePages = lock - 1
+	default:
+		c.FilePages = lock
+	}
+	set := map[uint32]bool{}
+	for _, p := range nearPages(r, lock, c.FilePages, false) {
+		set[p] = true
+	}
+	for p := c.FilePages + 1; p <= c.Commit; p++ {
+		if p != lock {
+			set[p] = true
+		}
+	}
+	for p := range set {
+		c.Map = append(c.Map, p)
+	}
+	sort.Slice(c.Map, func(i, j int) bool { return c.Map[i] < c.Map[j] })
+	for _, p := range []uint32{1, 2, c.FilePages - 1, c.FilePages, lock} {
+		if p <= c.FilePages {
+			c.Marks = append(c.Marks, p)
+		}
+	}
+	sort.Slice(c.Marks, func(i, j int) bool { return c.Marks[i] < c.Marks[j] })
+	return c
+}
+
 func sigOf(v string) string {
 	switch {
 	case strings.Contains(v, "contains the lock page"):
@@ -659,6 +701,286 @@ func sigOf(v string) string {
 	}
 	return "page-content"
 }
+
+// ---- real SQLite, database FILE below / at / just past the lock page while the WAL is beyond it ----
+
+// ShortCase: a real SQLite database whose file has BasePages pages (sparse, in-header page count
+// patched) and whose uncheckpointed WAL grows it past the lock page; every full-database encoder
+// of litestream then runs on it: variant "first-sync" (snapshot on first sync after open, then
+// DB.Snapshot), variant "verify-snapshot" (a replicated database is checkpointed and grown across
+// the lock page while litestream is stopped; the next sync finds a restarted WAL and re-snapshots).
+type ShortCase struct {
+	PageSize  uint32 `json:"page_size"`
+	BasePages uint32 `json:"base_pages"`
+	Variant   string `json:"variant"`
+	Rows      int    `json:"rows"`
+}
+
+func (c ShortCase) canon() string { b, _ := json.Marshal(c); return "short|" + string(b) }
+
+func genShort(r *hx.Rand, ps uint32, place int, variant string) ShortCase {
+	lock := ltx.LockPgno(ps)
+	c := ShortCase{PageSize: ps, Variant: variant}
+	switch place {
+	case 0:
+		c.BasePages = lock - 2 - uint32(r.Intn(5)) // file ends below the lock page
+	case 1:
+		c.BasePages = lock - 1 // file is exactly 1 GiB
+	default:
+		c.BasePages = lock // file ends with the lock page
+	}
+	if variant == "verify-snapshot" {
+		// litestream's own two bookkeeping tables add two pages before the checkpoint: the
+		// checkpointed file then has lock-1 (exactly 1 GiB) or lock-3 pages
+		c.BasePages = lock - 3 - uint32(r.Intn(2)*2)
+	}
+	// enough rows of ~0.9 page each to get well past the lock page
+	c.Rows = 12 + r.Intn(10)
+	if ps < 65536 {
+		c.Rows = int(uint32(c.Rows) * (65536 / ps))
+	}
+	return c
+}
+
+func runShort(c ShortCase, root string) (violation string, stats map[string]int) {
+	stats = map[string]int{}
+	ctx := context.Background()
+	dir, err := os.MkdirTemp(root, "short")
+	if err != nil {
+		hx.Fatal(err)
+	}
+	defer os.RemoveAll(dir)
+	ps := int(c.PageSize)
+	lock := ltx.LockPgno(c.PageSize)
+	dbPath := filepath.Join(dir, "db")
+	open := func() *sql.DB {
+		d, err := sql.Open("sqlite", dbPath)
+		if err != nil {
+			hx.Fatal(err)
+		}
+		d.SetMaxOpenConns(1)
+		return d
+	}
+	must := func(d *sql.DB, q string) {
+		if _, err := d.Exec(q); err != nil {
+			hx.Fatal(fmt.Errorf("%s: %w", q, err))
+		}
+	}
+	// 1. small rollback-mode database, then extend it sparsely and patch the in-header page count
+	app := open()
+	must(app, fmt.Sprintf("PRAGMA page_size = %d", ps))
+	must(app, "CREATE TABLE t (id INTEGER PRIMARY KEY, b BLOB)")
+	must(app, "INSERT INTO t (b) VALUES (randomblob(300))")
+	app.Close()
+	f, err := os.OpenFile(dbPath, os.O_RDWR, 0)
+	if err != nil {
+		hx.Fatal(err)
+	}
+	if err := f.Truncate(int64(c.BasePages) * int64(ps)); err != nil {
+		hx.Fatal(err)
+	}
+	var n [4]byte
+	binary.BigEndian.PutUint32(n[:], c.BasePages)
+	if _, err := f.WriteAt(n[:], 28); err != nil {
+		hx.Fatal(err)
+	}
+	f.Close()
+	app = open()
+	defer app.Close()
+	var mode string
+	if err := app.QueryRow("PRAGMA journal_mode = wal").Scan(&mode); err != nil || mode != "wal" {
+		hx.Fatal(fmt.Errorf("journal_mode=%q: %v", mode, err))
+	}
+	must(app, "PRAGMA wal_autocheckpoint = 0")
+	grow := func() uint32 {
+		for i := 0; i < c.Rows; i++ {
+			must(app, fmt.Sprintf("INSERT INTO t (b) VALUES (randomblob(%d))", ps*9/10))
+		}
+		var pc uint32
+		if err := app.QueryRow("PRAGMA page_count").Scan(&pc); err != nil {
+			hx.Fatal(err)
+		}
+		return pc
+	}
+	filePagesNow := func() uint32 {
+		fi, err := os.Stat(dbPath)
+		if err != nil {
+			hx.Fatal(err)
+		}
+		return uint32(fi.Size() / int64(ps))
+	}
+	replicaDir := filepath.Join(dir, "replica")
+	client := file.NewReplicaClient(replicaDir)
+	newDB := func() *litestream.DB {
+		db := litestream.NewDB(dbPath)
+		db.MonitorInterval = 0
+		db.Replica = litestream.NewReplicaWithClient(db, client)
+		db.Replica.MonitorEnabled = false
+		db.ShutdownSyncTimeout = 0
+		db.SetLogger(quiet)
+		return db
+	}
+	where := fmt.Sprintf("page size %d, database file %d pages, lock page %d", ps, c.BasePages, lock)
+
+	var db *litestream.DB
+	if c.Variant == "verify-snapshot" {
+		// replicate the below-lock database first, stop litestream, checkpoint, grow across the lock page
+		must(app, "INSERT INTO t (b) VALUES (randomblob(100))")
+		db = newDB()
+		if err := db.Open(); err != nil {
+			hx.Fatal(err)
+		}
+		for i := 0; i < 2; i++ {
+			if err := db.Sync(ctx); err != nil {
+				db.Close(ctx)
+				return fmt.Sprintf("sync of the database below the lock page fails (%s): %v", where, err), stats
+			}
+			if err := db.Replica.Sync(ctx); err != nil {
+				db.Close(ctx)
+				return fmt.Sprintf("replica sync fails (%s): %v", where, err), stats
+			}
+			must(app, "UPDATE t SET b = randomblob(120) WHERE id = 1")
+		}
+		if err := db.Sync(ctx); err == nil {
+			db.Replica.Sync(ctx)
+		}
+		db.Close(ctx)
+		var busy, a, b int
+		if err := app.QueryRow("PRAGMA wal_checkpoint(TRUNCATE)").Scan(&busy, &a, &b); err != nil || busy != 0 {
+			stats["setup-miss:checkpoint-busy"]++
+			return "", stats
+		}
+	}
+	pageCount := grow()
+	fp := filePagesNow()
+	if pageCount <= lock {
+		stats["setup-miss:did-not-cross"]++
+		return "", stats
+	}
+	switch {
+	case fp < lock-1:
+		stats["file-below-lock"]++
+	case fp == lock-1:
+		stats["file-exactly-1GiB"]++
+	case fp == lock:
+		stats["file-ends-with-lock-page"]++
+	default:
+		stats["file-beyond-lock"]++
+	}
+	db = newDB()
+	if err := db.Open(); err != nil {
+		hx.Fatal(err)
+	}
+	closed := false
+	defer func() {
+		if !closed {
+			db.Close(ctx)
+		}
+	}()
+	what := "first sync after open (snapshot)"
+	if c.Variant == "verify-snapshot" {
+		what = "sync after the WAL was restarted while litestream was stopped (verify-triggered snapshot)"
+	}
+	if err := db.Sync(ctx); err != nil {
+		return fmt.Sprintf("%s fails with the growth across the lock page still in the WAL (%s, %d pages committed): %v", what, where, pageCount, err), stats
+	}
+	if err := db.Replica.Sync(ctx); err != nil {
+		return fmt.Sprintf("replica sync fails (%s): %v", where, err), stats
+	}
+	// litestream's first sync may itself add pages (its bookkeeping tables): re-read the committed size
+	if err := app.QueryRow("PRAGMA page_count").Scan(&pageCount); err != nil {
+		hx.Fatal(err)
+	}
+	// was the newest L0 file a full snapshot?
+	if pos, err := db.Pos(); err == nil {
+		if pg, _, err := scanLTX(client.LTXFilePath(0, pos.TXID, pos.TXID), func(uint32, []byte) string { return "" }); err == nil {
+			if uint32(len(pg)) == pageCount-1 {
+				stats["l0-full-snapshot"]++
+			} else {
+				stats["l0-incremental"]++
+			}
+		}
+	}
+	if _, err := db.Snapshot(ctx); err != nil {
+		return fmt.Sprintf("DB.Snapshot fails with the growth across the lock page still in the WAL (%s, %d pages committed): %v", where, pageCount, err), stats
+	}
+	// SnapshotReader (what remote snapshot uploads stream): must be a decodable snapshot without the lock page
+	if _, rd, err := db.SnapshotReader(ctx); err != nil {
+		return fmt.Sprintf("DB.SnapshotReader fails (%s): %v", where, err), stats
+	} else {
+		dec := ltx.NewDecoder(rd)
+		var cnt countWriter
+		derr := dec.DecodeDatabaseTo(&cnt)
+		rd.Close()
+		if derr != nil {
+			return fmt.Sprintf("DB.SnapshotReader stream does not decode (%s): %v", where, derr), stats
+		}
+		if err := app.QueryRow("PRAGMA page_count").Scan(&pageCount); err != nil {
+			hx.Fatal(err)
+		}
+		if cnt.n != int64(pageCount)*int64(ps) {
+			return fmt.Sprintf("DB.SnapshotReader stream decodes to %d bytes, expected %d pages (%s)", cnt.n, pageCount, where), stats
+		}
+		stats["snapshot-reader-ok"]++
+	}
+	if fp2 := filePagesNow(); fp2 != fp {
+		stats["file-grew-during-run"]++
+	}
+	// no replicated file may contain the lock page
+	for _, lvl := range []int{0, litestream.SnapshotLevel} {
+		itr, err := client.LTXFiles(ctx, lvl, 0, false)
+		if err != nil {
+			hx.Fatal(err)
+		}
+		for itr.Next() {
+			info := itr.Item()
+			pgnos, _, err := scanLTX(client.LTXFilePath(info.Level, info.MinTXID, info.MaxTXID), func(uint32, []byte) string { return "" })
+			if err != nil {
+				itr.Close()
+				return fmt.Sprintf("file L%d %d-%d unreadable (%s): %v", lvl, info.MinTXID, info.MaxTXID, where, err), stats
+			}
+			stats[fmt.Sprintf("files-L%d", lvl)]++
+			for _, p := range pgnos {
+				if p == lock {
+					itr.Close()
+					return fmt.Sprintf("file L%d %d-%d contains the lock page %d (%s)", lvl, info.MinTXID, info.MaxTXID, p, where), stats
+				}
+			}
+		}
+		itr.Close()
+	}
+	// restore (latest, and the snapshot alone) and compare with the source = file overlaid by the committed WAL
+	for _, plan := range []string{"latest", "snapshot-only"} {
+		out := filepath.Join(dir, "restored-"+plan)
+		opt := litestream.NewRestoreOptions()
+		opt.OutputPath = out
+		if plan == "snapshot-only" {
+			itr, _ := client.LTXFiles(ctx, litestream.SnapshotLevel, 0, false)
+			for itr.Next() {
+				opt.TXID = itr.Item().MaxTXID
+			}
+			itr.Close()
+		}
+		if err := db.Replica.Restore(ctx, opt); err != nil {
+			return fmt.Sprintf("restore (%s) fails (%s): %v", plan, where, err), stats
+		}
+		why := compareFiles(dbPath, out, ps, lock)
+		os.Remove(out)
+		if why != "" {
+			return fmt.Sprintf("restore (%s): %s (%s)", plan, why, where), stats
+		}
+		stats["restore-"+plan+"-ok"]++
+	}
+	closed = true
+	if err := db.Close(ctx); err != nil {
+		stats["close-error"]++
+	}
+	return "", stats
+}
+
+type countWriter struct{ n int64 }
+
+func (c *countWriter) Write(b []byte) (int, error) { c.n += int64(len(b)); return len(b), nil }
 
 // ---- thorough: one real SQLite database > 1 GiB (page size 65536) end to end ----
 
@@ -908,7 +1230,7 @@ func compareFiles(src, dst string, ps int, lock uint32) string {
 func main() {
 	o := hx.ParseFlags("C17")
 	res := hx.NewResult(o, "c17: real writeLTXFromDB/writeLTXFromWAL on sparse files across the lock page vs Lean emittedFromDB/emittedFromWAL + restore oracle")
-	res.Rule = "incremental path: for each of the 8 page sizes, seeded cases with (prevCommit, commit) placing the lock page inside / last / just beyond / growth across the boundary in one sync / shrink across it / growth from the lock page, WAL page sets around the boundary (rarely including the lock page itself: expected encoder refusal); snapshot path: sparse databases of 1 GiB+ with the lock page inside / last / just beyond, optionally followed by an incremental file growing across the boundary, restored through ltx.Compactor + DecodeDatabaseTo and compared at every page. thorough adds all page sizes for the snapshot path and one real SQLite database > 1 GiB (page size 65536). non-trivial = every case; distinct = canonical JSON"
+	res.Rule = "file-vs-WAL family: database FILE below / exactly at / just past the lock page while the WAL's commit size is beyond it, on the hook-level snapshot writer (sparse files) and on real SQLite databases (sparse file with patched header page count, growth across the lock page in the uncheckpointed WAL) through first sync after open, verify-triggered re-snapshot after a WAL restart, DB.Snapshot, DB.SnapshotReader, Restore (latest and snapshot-only) with page compare and lock-page scan of every replicated file; incremental path: for each of the 8 page sizes, seeded cases with (prevCommit, commit) placing the lock page inside / last / just beyond / growth across the boundary in one sync / shrink across it / growth from the lock page, WAL page sets around the boundary (rarely including the lock page itself: expected encoder refusal); snapshot path: sparse databases of 1 GiB+ with the lock page inside / last / just beyond, optionally followed by an incremental file growing across the boundary, restored through ltx.Compactor + DecodeDatabaseTo and compared at every page. thorough adds all page sizes for the snapshot path and one real SQLite database > 1 GiB (page size 65536). non-trivial = every case; distinct = canonical JSON"
 	root, err := os.MkdirTemp("", "c17-")
 	if err != nil {
 		hx.Fatal(err)
@@ -956,32 +1278,56 @@ func main() {
 		return record(c, v, time.Since(t0).Seconds())
 	}
 	// evalPar runs the (slow, ~1 GiB each) snapshot cases concurrently, each with its own driver.
-	evalPar := func(cs []Case) {
-		type out struct {
-			v    verdict
-			secs float64
+	recordShort := func(c ShortCase, v string, stats map[string]int, secs float64) {
+		res.Case(c.canon(), true)
+		res.Count(fmt.Sprintf("real-short:%s:ps=%d", c.Variant, c.PageSize))
+		for k, n := range stats {
+			res.Distribution["real-short:"+k] += n
 		}
-		outs := make([]out, len(cs))
+		res.Sample(map[string]any{"kind": "real-short", "variant": c.Variant, "page_size": c.PageSize, "base_pages": c.BasePages, "seconds": secs})
+		if v != "" {
+			res.AddFinding("violation", "C17/real-"+sigOf(v), v, map[string]any{"short": c})
+		}
+	}
+	// evalPar runs the slow (~1 GiB each) cases concurrently: hook-level snapshot cases (each with
+	// its own driver) and real-SQLite short-file scenarios.
+	evalPar := func(cs []Case, shorts []ShortCase) {
+		type out struct {
+			v     verdict
+			sv    string
+			stats map[string]int
+			secs  float64
+		}
+		outs := make([]out, len(cs)+len(shorts))
 		var wg sync.WaitGroup
-		sem := make(chan struct{}, 6)
-		for i := range cs {
+		sem := make(chan struct{}, 8)
+		for i := 0; i < len(outs); i++ {
 			wg.Add(1)
 			go func(i int) {
 				defer wg.Done()
 				sem <- struct{}{}
 				defer func() { <-sem }()
+				t0 := time.Now()
+				if i >= len(cs) {
+					v, st := runShort(shorts[i-len(cs)], root)
+					outs[i] = out{sv: v, stats: st, secs: time.Since(t0).Seconds()}
+					return
+				}
 				d, err := hx.StartDriver(o.Driver)
 				if err != nil {
 					hx.Fatal(err)
 				}
 				defer d.Close()
-				t0 := time.Now()
-				outs[i] = out{run(cs[i], d, root), time.Since(t0).Seconds()}
+				outs[i] = out{v: run(cs[i], d, root), secs: time.Since(t0).Seconds()}
 			}(i)
 		}
 		wg.Wait()
 		for i, c := range cs {
 			record(c, outs[i].v, outs[i].secs)
+		}
+		for i, c := range shorts {
+			o := outs[len(cs)+i]
+			recordShort(c, o.sv, o.stats, o.secs)
 		}
 	}
 
@@ -992,11 +1338,20 @@ func main() {
 		}
 		var rf struct {
 			Replay struct {
-				Case Case `json:"case"`
+				Case  Case       `json:"case"`
+				Short *ShortCase `json:"short"`
 			} `json:"replay"`
 		}
 		if err := json.Unmarshal(b, &rf); err != nil {
 			hx.Fatal(err)
+		}
+		if rf.Replay.Short != nil {
+			v, st := runShort(*rf.Replay.Short, root)
+			fmt.Printf("real-short case: %s\nstats: %v\nviolation: %q\n", rf.Replay.Short.canon(), st, v)
+			if v != "" {
+				os.Exit(1)
+			}
+			return
 		}
 		v := run(rf.Replay.Case, drv, root)
 		fmt.Printf("case: %s\nviolation: %q\ndisagreement: %q\n", rf.Replay.Case.canon(), v.violation, v.disagree)
@@ -1015,10 +1370,19 @@ func main() {
 			}
 			var rf struct {
 				Replay struct {
-					Case Case `json:"case"`
+					Case  Case       `json:"case"`
+					Short *ShortCase `json:"short"`
 				} `json:"replay"`
 			}
-			if json.Unmarshal(b, &rf) == nil && rf.Replay.Case.PageSize != 0 {
+			if json.Unmarshal(b, &rf) != nil {
+				continue
+			}
+			if rf.Replay.Short != nil {
+				res.Count("corpus")
+				t0 := time.Now()
+				v, st := runShort(*rf.Replay.Short, root)
+				recordShort(*rf.Replay.Short, v, st, time.Since(t0).Seconds())
+			} else if rf.Replay.Case.PageSize != 0 {
 				res.Count("corpus")
 				eval(rf.Replay.Case)
 			}
@@ -1049,11 +1413,28 @@ func main() {
 		if i == 0 || o.Tier == "thorough" {
 			snaps = append(snaps, genSnap(rnd, ps, 0, true), genSnap(rnd, ps, 1, true), genSnap(rnd, ps, 2, true))
 		} else {
-			snaps = append(snaps, genSnap(rnd, ps, i%3, true))
+			_ = i // quick: the second page size is covered by a short-file case below
 		}
 	}
+	// database FILE below / exactly at / just past the lock page while the WAL's commit is beyond it
+	var shorts []ShortCase
+	if o.Tier == "thorough" {
+		for _, ps := range []uint32{65536, 32768, 4096} {
+			for place := 0; place < 3; place++ {
+				snaps = append(snaps, genSnapFile(rnd, ps, place))
+			}
+		}
+		for place := 0; place < 3; place++ {
+			shorts = append(shorts, genShort(rnd, 65536, place, "first-sync"))
+		}
+		shorts = append(shorts, genShort(rnd, 65536, 1, "verify-snapshot"), genShort(rnd, 65536, 1, "verify-snapshot"),
+			genShort(rnd, 32768, 0, "first-sync"), genShort(rnd, 4096, 0, "first-sync"), genShort(rnd, 4096, 1, "verify-snapshot"))
+	} else {
+		snaps = append(snaps, genSnapFile(rnd, 65536, 0), genSnapFile(rnd, 65536, 1), genSnapFile(rnd, 16384, int(o.Seed%3)))
+		shorts = append(shorts, genShort(rnd, 65536, int(o.Seed%2), "first-sync"), genShort(rnd, 65536, 1, "verify-snapshot"))
+	}
 	if len(res.Findings) < 4 {
-		evalPar(snaps)
+		evalPar(snaps, shorts)
 	}
 	if o.Tier == "thorough" && len(res.Findings) == 0 {
 		realBig(res, root)
